@@ -177,7 +177,7 @@ Section Validate.
          parent's plus one is rejected first (fix recorded in known_findings.json) *)
       do _ <- match cs_blocks s !! b_prev b with
               | Some prev => check (b_height b =? b_height prev + 1) EValidation
-              | None => Ok tt
+              | None => check (b_height b =? 0) EValidation          (* only a genesis block has no previous block *)
               end;
       match known_hash (p_known P) (b_height b) with
       | Some kh => check (bytes_eqb (block_id sha b) kh) EValidation
